@@ -822,7 +822,8 @@ def run(chk):
     chk.cov["exhaustive"] = False
     chk.cov["skipped_timeouts"] = SKIPPED["timeouts"]
     chk.cov["rule"] = ("one case = one decomposition (CP / Tucker / TT / TR / TT-matrix / PARAFAC2; integer entries in [-3,3]) observed through every view "
-                       "(validate|.shape/.rank, to_tensor [masked], to_unfolded for every mode + one invalid mode, to_vec, norm, to_matrix, slice(s)) under both tenalg backends, "
+                       "(validate|.shape/.rank, to_tensor [masked], to_unfolded for every mode + one invalid mode, to_vec, cp_norm / wrapper .norm(), to_matrix, slice(s)) under both tenalg backends "
+                       "(the einsum TT-matrix route against its own model), "
                        "as tuple and as wrapper object, along a shuffled multi-step sequence with repeats; CP: all shapes of order 1-3 over {1,2,3} (+ sampled order 4; thorough: all) x rank {1,2,3} x "
                        "weights {None, ones, signed non-unit} + masked; Tucker/TT/TR: all shapes of order 1-2 + sampled order 3-4 with random ranks in {1,2,3} incl. rank > dim, skip_factor, transpose_factors; "
                        "TT-matrix with 1-3 cores; PARAFAC2 with uneven slices; plus a malformed stream (mismatched ranks, wrong boundary ranks, open rings, wrong ndim, non-orthonormal projections, wrong counts); "
